@@ -21,6 +21,9 @@ CHECKS = {
     'C17': dict(category='model_checking', engine='Tracer', technique='TLA+ Tracer.tla (Solver.tla + TracerMixin appends): TLC exhaustive incl. refinement of Solver; behaviours replayed on traced and untraced twins, Trace compared with the spec segment',
                 text='Tracer.tla conjoins every Solver.tla action with the append the mixin performs; TLC checks that every traced behaviour projects to a Solver behaviour (non-interference at design level), that nothing is written with tracing off and that the segment has the documented shape with snapshot j = cells after pass j; each behaviour is run on a TracerMixin model and an untraced twin through all three entry points and three trace argument forms, comparing twins, spec and the recorded Trace, including repeated solves.',
                 note='Trusted: as C02; snapshot comparison is on check variables, other traced names by presence/shape.', ref='6.6, 7 (C17)'),
+    'C16': dict(category='model_checking', engine='TimeSeries', technique='TLA+ TimeSeries.tla: shift/lag/lead/diff operators and an eval() expression machine enumerated exhaustively by TLC; every case replayed on fsic.functions and VectorContainer.eval over five span types',
+                text='TimeSeries.tla defines lag/lead/diff as the property states them and models eval() (label resolution, namespace assembly, evaluation, NameError->AttributeError) with a direct denotation layer (C16_* invariants); TLC enumerates all small arrays x shifts x fills and all expressions up to 3 operator nodes over namespace scenarios and spans; each emitted case carries the expected result and is replayed on the real helpers and on container.eval, also checking input arrays, the container and the package-level helper table are untouched.',
+                note='Trusted: TLC; ast round-trip of rendered expressions; arrays <=4, expressions <=3 operator nodes; dlog compared numerically against np.log differences.', ref='6.9, 7 (C16)'),
 }
 
 NOT_YET = {}
